@@ -368,6 +368,9 @@ def run(tier):
         _selftest_keys(_procs(), quick)
         cfg = "InvokeBinding_quick.cfg" if quick else "InvokeBinding_thorough.cfg"
         shapes = _shapes(_cfg(cfg, tmp), cov, _procs())
+        fams = os.environ.get("PV_C24_FAMILY")   # development aid: a,b,..
+        if fams:
+            shapes = [s for s in shapes if s["fam"] in fams.split(",")]
         cov["shapes_lfric"] = sum(1 for s in shapes if s["api"] == "lfric")
         cov["shapes_gocean"] = sum(1 for s in shapes if s["api"] == "gocean")
         _run_shapes(out, cov, tmp, shapes, False, stats)
@@ -402,7 +405,9 @@ def run(tier):
         "family bounds: InvokeBinding.tla Part 2 (13 field texts, 11 scalar "
         "texts, 8 stencil-extent, 5 direction, 4 quadrature, 4 integer texts, "
         "5 labels; LFRic pair/scalar/double/extra and GOcean gopair/goscalar "
-        "families; quick = every 3rd shape (every 6th of the extra family), "
+        "families, quick = every 3rd shape (every 6th of the extra family), plus "
+        "the qorder family (12 metadata orders of 2-3 quadrature shapes x 3 "
+        "contexts, never thinned); "
         "offset VERIF_SEED)",
         "TypeAgree compares the declared type class of each PSy dummy with the "
         "kind (kernel signature in the spec) of the object written as the "
